@@ -471,7 +471,7 @@ def run(ctx):
         K = K if isinstance(K, str) else ast.unparse(K)
         ok = has(f'if {F} is None:\n    {F} = _all_.pop({K}, __)', fn)
         for n2, b2 in find(f'if {F} is None:\n    {F} = _d_', fn):
-            if isinstance(b2['_d_'], str) and has(
+            if b2['_d_'].isidentifier() and has(
                     f"{b2['_d_']} = _all_.pop({K}, __)", fn):
                 ok = True
         ctx.check('C18.Q4.precedence', f'[files] terminal value of {K}', ok,
@@ -483,7 +483,7 @@ def run(ctx):
     # the run is rejected as "unexpected parameter"
     tvars = {T}
     for n_, b_ in find(f'_v_ = {T}.pop(__)', fn) + find(f'_v_ = {T}[__]', fn):
-        if isinstance(b_['_v_'], str):
+        if b_['_v_'].isidentifier():
             tvars.add(b_['_v_'])
     nq4 = 0
     for c in ast.walk(fn):
